@@ -191,6 +191,11 @@ func (c *wsConnection) init() bool {
 			c.initPayload = make(InitPayload)
 			err := json.Unmarshal(m.payload, &c.initPayload)
 			if err != nil {
+				// a payload that is not a JSON object: tell the client and close the
+				// connection, like any other undecodable message (returning alone would leave
+				// the socket open for ever and never call CloseFunc)
+				c.sendConnectionError("invalid json")
+				c.close(websocket.CloseProtocolError, "decoding error")
 				return false
 			}
 		}
